@@ -1,20 +1,28 @@
 import LaunchpadModel.Model.TradingTime
+import LaunchpadModel.Model.TradingTimeX
 import LaunchpadModel.Model.Proto
 /-!
-Driver for C19 (trading start time). One output line per input line.
+Driver for C19 (trading start time). One output line per input line. Runs `LP.TT.stepX` (= `LP.TT.step` on every `Op`).
 
-* `case kind=<0..10 minter crate> now=<ns> offset=<secs> minter=<addr id the chain will assign>`  → `case`
+* `case … kind=<0..10 minter crate> now=<ns> offset=<secs> minter=<id the harness uses for the minter contract>`  → `case`
 * `time t=<ns>`                                                        next block time
-* `sudo_offset v=<secs|->`                                             factory sudo UpdateParams{max_trading_offset_secs}
-* `create coll=<0 base|1 updatable|2 nt|3 metadata> creator=<a> start=<ns> end=<ns|-> trading=<ns|->`
+* `sudo_offset v=<secs|-> [bps=… extra=…]`                             factory sudo UpdateParams{max_trading_offset_secs} (other
+                                                                       fields of a partial update are not part of the model)
+* `mig_factory v=<secs|-> msg=<0|1>`                                   factory migrate; msg=0: `null` message (inert)
+* `create coll=<0 base|1 updatable|2 nt|3 metadata> creator=<a> start=<ns> end=<ns|-> trading=<ns|-> [acc=<0|1>]`
 * `upd_trading sender=<a> t=<ns|-> funds=<n>`                          minter UpdateStartTradingTime
-* `upd_start sender=<a> t=<ns> funds=<n>` / `upd_end …`                minter UpdateStartTime / UpdateEndTime
+* `upd_start sender=<a> t=<ns> funds=<n> [acc=]` / `upd_end …`         minter UpdateStartTime / UpdateEndTime
 * `coll_trading sender=<a> t=<ns|->`                                   UpdateStartTradingTime sent to the collection
-* `coll_creator sender=<a> new=<a>` / `coll_freeze sender=<a>`         UpdateCollectionInfo{creator} / FreezeCollectionInfo
+* `coll_creator sender=<a> new=<a> [acc=]` / `coll_freeze sender=<a> [acc=]`
 * `coll_own sender=<a> act=<0 transfer|1 accept|2 renounce> new=<a>`   UpdateOwnership
+* `mig_minter …`, `mig_coll …`, `coll_raw …`, `minter_raw …`, `minter_sudo …`, `factory_raw …`   inert for this property
 
-Answer: `<ok|err> now= off= tr=<none|-|ns> start=<ns|-> end=<ns|-> creator=<a|-> owner=<a|-> pend=<a|->`
-(`tr=none`: no collection yet; `tr=-`: collection without trading time).
+Answers (`<obs>` = `now= off= tr=<none|-|ns> start=<ns|-> creator=<a|-> owner=<a|-> pend=<a|-> ## end=<ns|->`):
+* ops C19 owns:                      `<ok|err> <obs>`
+* `create` with the witness `acc=`:  `<ok|err> <obs> dec=<ok|err>`   (dec = the unwitnessed `LP.TT.step` decision, DRIFT only)
+* witnessed env ops (`acc=`):        `env <obs> dec=<ok|err>`
+* inert ops:                         `any <obs>`
+(`tr=none`: no collection yet; `tr=-`: collection without trading time). Everything after ` ## ` is outside the projection.
 -/
 open LP LP.Proto LP.TT
 
@@ -24,12 +32,14 @@ def familyOf (k : Nat) : Family :=
 def collOf (k : Nat) : CollKind :=
   if k = 1 then .updatable else if k = 2 then .nt else if k = 3 then .metadata else .base
 
-def obs (w : World) : String :=
+/-- (primary, drift) -/
+def obs (w : World) : String × String :=
   match w.mc with
-  | none => s!"now={w.now} off={w.offset} tr=none start=- end=- creator=- owner=- pend=-"
+  | none => (s!"now={w.now} off={w.offset} tr=none start=- creator=- owner=- pend=-", "end=-")
   | some (m, c) =>
     let st := if w.family = .base then "-" else toString m.mintStart
-    s!"now={w.now} off={w.offset} tr={renderOpt c.trading} start={st} end={renderOpt m.endTime} creator={c.creator} owner={renderOpt c.owner} pend={renderOpt c.pending}"
+    (s!"now={w.now} off={w.offset} tr={renderOpt c.trading} start={st} creator={c.creator} owner={renderOpt c.owner} pend={renderOpt c.pending}",
+     s!"end={renderOpt m.endTime}")
 
 def parseOp (ws : List String) : Option Op :=
   match ws.head? with
@@ -50,17 +60,52 @@ def parseOp (ws : List String) : Option Op :=
     pure (.collOwn s (if a = 0 then .transfer n else if a = 1 then .accept else .renounce))
   | _ => none
 
+/-- the witnessed form of an `Op` (the implementation's verdict `acc` as environment input), if it has one -/
+def witnessed (op : Op) (acc : Bool) : Option OpX :=
+  match op with
+  | .create k c s e r => some (.createW k c s e r acc)
+  | .updStart _ t _ => some (if acc then .env (.startSet t) else .inert)
+  | .updEnd _ t _ => some (if acc then .env (.endSet t) else .inert)
+  | .collCreator _ n => some (if acc then .env (.creatorSet n) else .inert)
+  | .collFreeze _ => some (if acc then .env .frozenSet else .inert)
+  | _ => none
+
+def inertOps : List String := ["mig_minter", "mig_coll", "coll_raw", "minter_raw", "minter_sudo", "factory_raw"]
+
+def render (word : String) (w : World) (extra : String) : String :=
+  let (p, d) := obs w
+  s!"{word} {p} ## {d}{extra}"
+
+def word (r : Except Err World) : String := match r with | .ok _ => "ok" | .error _ => "err"
+
 def c19Step (w : World) (line : String) : World × String :=
   let ws := words line
   match ws.head? with
   | some "case" =>
     (init (familyOf ((natKv ws "kind").getD 0)) ((natKv ws "now").getD 0) ((natKv ws "offset").getD 0) ((natKv ws "minter").getD 0), "case")
-  | _ =>
-    match parseOp ws with
-    | none => (w, "bad-op")
-    | some op =>
-      match step w op with
-      | .ok w' => (w', s!"ok {obs w'}")
-      | .error _ => (w, s!"err {obs w}")
+  | some "mig_factory" =>
+    match boolKv ws "msg", optNatKv ws "v" with
+    | some true, some v => let w' := stepX' w (.migFactory v); (w', render "ok" w' "")
+    | some false, _ => (w, render "ok" w "")
+    | _, _ => (w, "bad-op")
+  | some h =>
+    if inertOps.contains h then (stepX' w .inert, render "any" w "")
+    else
+      match parseOp ws with
+      | none => (w, "bad-op")
+      | some op =>
+        match (boolKv ws "acc").bind (witnessed op) with
+        | some opx =>
+          let dec := word (step w op)
+          let r := stepX w opx
+          let w' := stepX' w opx
+          match op with
+          | .create .. => (w', render (word r) w' s!" dec={dec}")
+          | _ => (w', render "env" w' s!" dec={dec}")
+        | none =>
+          let r := stepX w (.base op)
+          let w' := stepX' w (.base op)
+          (w', render (word r) w' "")
+  | none => (w, "bad-op")
 
 def main : IO Unit := runDriverRaw (init .vending 0 0 0) c19Step
